@@ -6,7 +6,7 @@ from traceback import format_exc
 import six
 from six import add_metaclass, raise_from
 
-from .exceptions import UnexpectedError
+from .exceptions import UnexpectedError, RecursiveModelStructure
 
 if six.PY3:
     from typing import List, Any, Dict  # noqa: F401 (used for typing)
@@ -132,6 +132,9 @@ class Command(object):
 
     def run(self):
         if not self.is_finished:
+            if getattr(self, "is_running", False):
+                raise RecursiveModelStructure(self.lineno)
+
             self.is_running = True
 
             try:
@@ -144,6 +147,8 @@ class Command(object):
                 if isinstance(exc, MPilotError):
                     raise
                 raise_from(UnexpectedError(exc, format_exc(), self.lineno), exc)
+            finally:
+                self.is_running = False
 
             self.is_finished = True
 
